@@ -970,7 +970,15 @@ def rule_digit_runs_bounded(ctx: Ctx, rep: Report) -> None:
     rep.floor(rule, 2)
 
 
+def rule_hashable_membership_(ctx: Ctx, rep: Report) -> None:
+    """C19.hashable_membership: no prefix test hashes a slice of octets that may be a bytearray (see sigcommon.rule_hashable_membership)."""
+    from rules.sigcommon import rule_hashable_membership
+    rule_hashable_membership(ctx, rep, "C19.hashable_membership", ('btclib.',))
+
+
 RULES = [
+    ("C19.hashable_membership", rule_hashable_membership_),
+
     ("C19.digit_runs_bounded", rule_digit_runs_bounded),
 
     ("C19.input_index_bounded", rule_input_index_bounded),
